@@ -35,8 +35,11 @@ func main() { Main("C34", runC34, nil) }
 const maxEntries = 16 // the property's "sixteen"
 
 type nodeSpec struct {
-	n    *dht.Node
-	kind string // real | forged | self | selfid-forged | twin-other-bucket | twin-same-bucket | same-sha-as-self
+	n     *dht.Node
+	kind  string // real | forged | self | selfid-forged | twin-other-bucket | twin-same-bucket | same-sha-as-self
+	label int    // stands for the node id in the model (0 = the local id; twins share a label)
+	group int    // position of the node's distance hash in the local node's pool
+	j     int
 }
 
 type opSpec struct {
@@ -44,11 +47,19 @@ type opSpec struct {
 	idx  []int
 }
 
+// Per local node: groups of distance hashes.  Group 0 = the local node's own
+// hash; one group per real bucket (ids whose sha3 lands there) and one per
+// forged bucket (hashes constructed at that log-distance).
 type selfPool struct {
-	id    dht.NodeID
-	node  *dht.Node
-	sha   common.Hash
-	pools map[int][]dht.NodeID // bucket -> ids whose sha3 lands there
+	k       int
+	id      dht.NodeID
+	node    *dht.Node
+	sha     common.Hash
+	pools   map[int][]dht.NodeID // real bucket -> ids whose sha3 lands there
+	groups  [][]common.Hash
+	realGrp map[int]int // bucket -> group
+	forgGrp map[int]int // bucket -> group
+	forged  []int       // buckets with a forged group
 }
 
 // independent log-distance: bit length of the xor of the two hashes
@@ -86,9 +97,10 @@ func forgeSha(r *Rng, s common.Hash, d int) common.Hash {
 
 const lowestReal = 249
 const poolPerBucket = 30
+const forgedPerBucket = 20
 
-func buildSelfPool(r *Rng) *selfPool {
-	sp := &selfPool{id: randID(r), pools: map[int][]dht.NodeID{}}
+func buildSelfPool(r *Rng, k int) *selfPool {
+	sp := &selfPool{k: k, id: randID(r), pools: map[int][]dht.NodeID{}, realGrp: map[int]int{}, forgGrp: map[int]int{}}
 	tab := dht.VerifNewTable(sp.id)
 	sp.node = tab.Self()
 	sp.sha = sp.node.VerifSha()
@@ -104,12 +116,41 @@ func buildSelfPool(r *Rng) *selfPool {
 			missing--
 		}
 	}
+	sp.groups = [][]common.Hash{{sp.sha}}
+	for d := 256; d >= lowestReal; d-- {
+		var g []common.Hash
+		for _, id := range sp.pools[d] {
+			g = append(g, dht.VerifNode(id).VerifSha())
+		}
+		sp.realGrp[d] = len(sp.groups)
+		sp.groups = append(sp.groups, g)
+	}
+	bs := append([]int(nil), boundaryBuckets...)
+	for len(bs) < len(boundaryBuckets)+6 {
+		bs = append(bs, r.Intn(257))
+	}
+	for _, d := range bs {
+		if _, ok := sp.forgGrp[d]; ok {
+			continue
+		}
+		var g []common.Hash
+		for i := 0; i < forgedPerBucket; i++ {
+			g = append(g, forgeSha(r, sp.sha, d))
+		}
+		sp.forgGrp[d] = len(sp.groups)
+		sp.forged = append(sp.forged, d)
+		sp.groups = append(sp.groups, g)
+	}
 	return sp
 }
 
-func idN(id dht.NodeID) string     { return new(big.Int).SetBytes(id[:]).String() }
-func shaN(h common.Hash) string    { return new(big.Int).SetBytes(h[:]).String() }
-func coqNode(n *dht.Node) string   { s := n.VerifSha(); return "nd " + idN(n.ID) + " " + shaN(s) }
+// a forged hash of the pool at log-distance d
+func (sp *selfPool) forgedAt(r *Rng, d int) (common.Hash, int, int) {
+	g := sp.forgGrp[d]
+	j := r.Intn(len(sp.groups[g]))
+	return sp.groups[g][j], g, j
+}
+
 func shortID(id dht.NodeID) string { return hex.EncodeToString(id[:4]) }
 
 var boundaryBuckets = []int{0, 1, 2, 7, 8, 9, 15, 16, 17, 64, 127, 128, 129, 200, 247, 248, 255, 256}
@@ -139,12 +180,21 @@ type genCase struct {
 
 func genPopulation(r *Rng, sp *selfPool, c *Ctx) *genCase {
 	g := &genCase{sp: sp, byBkt: map[int][]int{}}
-	add := func(n *dht.Node, kind string) int {
-		g.nodes = append(g.nodes, nodeSpec{n, kind})
+	nextLabel := 1
+	add := func(n *dht.Node, kind string, label, grp, j int) int {
+		if label < 0 {
+			label = nextLabel
+			nextLabel++
+		}
+		g.nodes = append(g.nodes, nodeSpec{n, kind, label, grp, j})
 		i := len(g.nodes) - 1
 		d := bitDist(sp.sha, n.VerifSha())
 		g.byBkt[d] = append(g.byBkt[d], i)
 		return i
+	}
+	addForged := func(id dht.NodeID, d int, kind string, label int) {
+		h, grp, j := sp.forgedAt(r, d)
+		add(dht.VerifNodeWithSha(id, h), kind, label, grp, j)
 	}
 	nb := 1 + r.Intn(3)
 	forgedCase := r.Chance(25)
@@ -156,11 +206,7 @@ func genPopulation(r *Rng, sp *selfPool, c *Ctx) *genCase {
 	for len(g.buckets) < nb {
 		var d int
 		if forgedCase {
-			if r.Chance(70) {
-				d = boundaryBuckets[r.Intn(len(boundaryBuckets))]
-			} else {
-				d = r.Intn(257)
-			}
+			d = sp.forged[r.Intn(len(sp.forged))]
 		} else {
 			d = 256 - r.Intn(256-lowestReal+1)
 			if r.Chance(60) {
@@ -185,7 +231,7 @@ func genPopulation(r *Rng, sp *selfPool, c *Ctx) *genCase {
 		budget -= p
 		if forgedCase {
 			for k := 0; k < p; k++ {
-				add(dht.VerifNodeWithSha(randID(r), forgeSha(r, sp.sha, d)), "forged")
+				addForged(randID(r), d, "forged", -1)
 			}
 		} else {
 			pool := sp.pools[d]
@@ -202,32 +248,38 @@ func genPopulation(r *Rng, sp *selfPool, c *Ctx) *genCase {
 				perm[i], perm[j] = perm[j], perm[i]
 			}
 			for k := 0; k < p; k++ {
-				add(dht.VerifNode(pool[perm[k]]), "real")
+				add(dht.VerifNode(pool[perm[k]]), "real", -1, sp.realGrp[d], perm[k])
 			}
 		}
 	}
 	// boundary / malformed members of the population
 	if r.Chance(30) {
-		add(sp.node, "self")
+		add(sp.node, "self", 0, 0, 0)
+	}
+	forgedBucketOf := func(d int) int { // a bucket with a forged group: d itself if it has one
+		if _, ok := sp.forgGrp[d]; ok {
+			return d
+		}
+		return sp.forged[r.Intn(len(sp.forged))]
 	}
 	if r.Chance(15) {
-		add(dht.VerifNodeWithSha(sp.id, forgeSha(r, sp.sha, g.buckets[r.Intn(len(g.buckets))])), "selfid-forged")
+		addForged(sp.id, forgedBucketOf(g.buckets[r.Intn(len(g.buckets))]), "selfid-forged", 0)
 	}
 	if r.Chance(15) {
-		add(dht.VerifNodeWithSha(randID(r), sp.sha), "same-sha-as-self")
+		add(dht.VerifNodeWithSha(randID(r), sp.sha), "same-sha-as-self", -1, 0, 0)
 	}
 	base := len(g.nodes)
 	for k := 0; k < 2; k++ {
 		if r.Chance(15) && base > 0 {
-			o := g.nodes[r.Intn(base)].n
-			if o.ID == sp.id {
+			o := g.nodes[r.Intn(base)]
+			if o.n.ID == sp.id {
 				continue
 			}
-			if r.Bool() && len(g.buckets) > 1 {
-				add(dht.VerifNodeWithSha(o.ID, forgeSha(r, sp.sha, g.buckets[r.Intn(len(g.buckets))])), "twin-other-bucket")
+			d := bitDist(sp.sha, o.n.VerifSha())
+			if _, ok := sp.forgGrp[d]; ok && r.Bool() {
+				addForged(o.n.ID, d, "twin-same-bucket", o.label)
 			} else {
-				d := bitDist(sp.sha, o.VerifSha())
-				add(dht.VerifNodeWithSha(o.ID, forgeSha(r, sp.sha, d)), "twin-same-bucket")
+				addForged(o.n.ID, forgedBucketOf(g.buckets[r.Intn(len(g.buckets))]), "twin-other-bucket", o.label)
 			}
 		}
 	}
@@ -356,11 +408,23 @@ func hasID(l []*dht.Node, id dht.NodeID) bool {
 	return false
 }
 
+func (g *genCase) labelOf(id dht.NodeID) int {
+	if id == g.sp.id {
+		return 0
+	}
+	for _, x := range g.nodes {
+		if x.n.ID == id {
+			return x.label
+		}
+	}
+	return 1 << 30 // an id that is not in the population: never matches the model
+}
+
 func (g *genCase) describe(upto int) map[string]interface{} {
 	var nodes []string
 	for i, ns := range g.nodes {
 		s := ns.n.VerifSha()
-		nodes = append(nodes, fmt.Sprintf("%d:%s id=%x sha=%x bucket=%d", i, ns.kind, ns.n.ID[:], s[:], bitDist(g.sp.sha, s)))
+		nodes = append(nodes, fmt.Sprintf("%d:%s label=%d id=%x sha=%x bucket=%d", i, ns.kind, ns.label, ns.n.ID[:], s[:], bitDist(g.sp.sha, s)))
 	}
 	var ops []string
 	for k, o := range g.ops {
@@ -411,7 +475,7 @@ func runCase(c *Ctx, g *genCase) {
 			if r == nil {
 				obs = append(obs, "None")
 			} else {
-				obs = append(obs, "Some "+idN(r.ID)+"%N")
+				obs = append(obs, fmt.Sprintf("Some %d%%N", g.labelOf(r.ID)))
 				c.Stats.Count("ev_add_parked_in_replacements")
 			}
 		case "stuff":
@@ -476,20 +540,20 @@ func runCase(c *Ctx, g *genCase) {
 		ids := func(l []*dht.Node) string {
 			var s []string
 			for _, e := range l {
-				s = append(s, idN(e.ID))
+				s = append(s, fmt.Sprint(g.labelOf(e.ID)))
 			}
 			if len(s) == 0 {
 				return "[]"
 			}
 			return "[" + strings.Join(s, "; ") + "]%N"
 		}
-		bs = append(bs, fmt.Sprintf("(%d, (%s, %s))", i, ids(final.es[i]), ids(final.rs[i])))
+		bs = append(bs, fmt.Sprintf("(%d%%N, (%s, %s))", i, ids(final.es[i]), ids(final.rs[i])))
 	}
 	observed := fmt.Sprintf("Some (%d%%Z, (%s, %s))", final.count, CoqList(bs), CoqList(obs))
 	// model expression
 	var ns []string
 	for _, x := range g.nodes {
-		ns = append(ns, coqNode(x.n))
+		ns = append(ns, fmt.Sprintf("(%d,%d,%d)", x.label, x.group, x.j))
 	}
 	var ops []string
 	for _, o := range g.ops {
@@ -512,7 +576,7 @@ func runCase(c *Ctx, g *genCase) {
 			ops = append(ops, "IStuff "+CoqList(l))
 		}
 	}
-	model := fmt.Sprintf("run_case (%s) %s %s", coqNode(sp.node), CoqList(parens(ns)), CoqList(parens(ops)))
+	model := fmt.Sprintf("rc %d %s%%N %s%%N", sp.k, CoqList(ns), CoqList(parens(ops)))
 	id := c.Cases.Add(model, observed)
 	c.Stats.Count("model_evaluated")
 	h := sha256.Sum256([]byte(model))
@@ -591,12 +655,16 @@ func fixedCases(c *Ctx, sp *selfPool) []*genCase {
 		g := &genCase{sp: sp, byBkt: map[int][]int{}, buckets: []int{d}, kind: "fixed"}
 		for k := 0; k < n; k++ {
 			var nd *dht.Node
+			grp, j := 0, 0
 			if d >= lowestReal {
 				nd = dht.VerifNode(sp.pools[d][k])
+				grp, j = sp.realGrp[d], k
 			} else {
-				nd = dht.VerifNodeWithSha(randID(c.Rng), forgeSha(c.Rng, sp.sha, d))
+				var h common.Hash
+				h, grp, j = sp.forgedAt(c.Rng, d)
+				nd = dht.VerifNodeWithSha(randID(c.Rng), h)
 			}
-			g.nodes = append(g.nodes, nodeSpec{nd, "real"})
+			g.nodes = append(g.nodes, nodeSpec{nd, "real", k + 1, grp, j})
 			g.byBkt[d] = append(g.byBkt[d], k)
 		}
 		g.hot = []int{0}
@@ -640,7 +708,7 @@ func runC34(c *Ctx) error {
 	nself := c.N(3, 8)
 	var selfs []*selfPool
 	for i := 0; i < nself; i++ {
-		selfs = append(selfs, buildSelfPool(c.Rng))
+		selfs = append(selfs, buildSelfPool(c.Rng, i))
 	}
 	for _, g := range fixedCases(c, selfs[0]) {
 		runCase(c, g)
@@ -653,6 +721,22 @@ func runC34(c *Ctx) error {
 		runCase(c, g)
 	}
 	c.Stats.Rule = "a case is a local node, a population of at most ~45 nodes whose hashes collide in 1-3 buckets (real ids with sha3 in buckets 249..256, or forged hashes in boundary buckets 0,1,2,7,8,9,...,255,256; plus the local node itself, the local id under a forged hash, a foreign id under the local hash, and twins sharing an id), and a sequence of 1..290 add/stuff/delete/deleteReplace/bump/deleteFromReplacement calls (fill phase, then weighted churn with a hot set); distinct = distinct (population, sequence); non-trivial = at least two operations and the recorded count changed; after every operation the implementation's buckets are checked against the property (<=16 entries, distinct ids, right log-distance via math/big, local id absent, count = number of entries); the final projection (count, ordered entry/replacement ids per bucket, per-operation results) is compared with the Coq model"
-	header := "From Coq Require Import ZArith NArith List Bool.\nFrom C34 Require Import Model Run.\nImport ListNotations.\n"
+	// the distance hashes of all pools, once per case file
+	var ps []string
+	for _, sp := range selfs {
+		var gs []string
+		for _, grp := range sp.groups {
+			var hs []string
+			for _, h := range grp {
+				hs = append(hs, "0x"+hex.EncodeToString(h[:]))
+			}
+			gs = append(gs, CoqList(hs))
+		}
+		ps = append(ps, CoqList(gs))
+	}
+	header := "From Coq Require Import ZArith NArith List Bool.\nFrom C34 Require Import Model Run.\nImport ListNotations.\n" +
+		"Definition pools : pool := Eval vm_compute in mkpools (" + strings.Join(ps, " ::\n ") + " :: nil)%N.\n" +
+		"Definition rc := run_case_pool pools.\n"
+	c.Cases.Shard = c.N(300, 1000)
 	return c.Cases.Write(c.Out, header, "cres", "cres_eqb")
 }
